@@ -1,0 +1,1 @@
+//! Verification facade (cfg-gated): ranges family.  See `crate::verif`.
